@@ -195,37 +195,7 @@ def check(prog, run):
                                'the single-line form concatenates the text directly with the closing """ but no test on a '
                                "trailing %s precedes it: the printed text does not lex back to the same string" % label)
 
-    # ---- I1 indentation of multi-line text
-    r = run.rule("I1", "_indent folded on sample texts (one line, several lines, an interior line of blanks, an empty interior line, "
-                       "U+2028 / U+0085 inside a line) x indents (two spaces, a tab): its body is a pure str expression (str methods, "
-                       "% / +, textwrap) and must prefix every \\n-separated line - a line of blanks included, or the parser's "
-                       "common-indentation removal eats its content - and insert nothing anywhere else; the empty text stays empty", 12)
-    ind = prog.get_func(PRINTER, "_indent")
-    run.looked_at(ind)
-    shapes.require(len(ind.params) == 2, "C03.I1: _indent no longer takes (text, indent)")
-    import textwrap as _textwrap
-    from .. import fold
-    allowed = {"str": str, "len": len, "bool": bool, "textwrap": _textwrap, "True": True, "False": False, "None": None,
-               "map": map, "list": list, "tuple": tuple}
-    for text in ("a", "a\nb", "a\n    \nb", "a\n\nb", "a\u2028b\nc", "a\x85b\nc", ""):
-        for indent in ("  ", "\t"):
-            try:
-                outs = fold.fold_function(ind.node, {ind.params[0]: text, ind.params[1]: indent}, allowed)
-            except fold.FoldError as e:
-                raise AnalysisError("C03.I1: _indent cannot be folded on %r: %s" % (text, e))
-            r.instance("_indent(%r, %r) -> %s" % (text, indent, [v for _k, v in outs]))
-            for kind, got in outs:
-                ok = kind == "return" and isinstance(got, str)
-                if ok and text == "":
-                    ok = got == ""
-                elif ok:
-                    lines, src = got.split("\n"), text.split("\n")
-                    ok = len(lines) == len(src) and all(g == indent + s_ or (s_ == "" and g == "") for g, s_ in zip(lines, src))
-                if not ok:
-                    run.report(r, "%s:_indent:every-line(%r)" % (PRINTER, text), ind.where(),
-                               "_indent(%r, %r) gives %r: not every line is prefixed (or something else is inserted), so a block string "
-                               "printed inside an indented position does not read back as the same text" % (text, indent, got))
-                    break
+    check_indent(prog, run, "I1")
 
     # ---- D4 omission decisions never look at string content
     r = run.rule("D4", "the printer decides whether to emit a slot from the slot itself (`is None`, list emptiness), never from "
@@ -579,3 +549,38 @@ def check_printer_language(prog, run, rule_id):
             run.report(r2, "%s:ASTPrinter:%s:slot-dropped(%s)" % (PRINTER, c, slot), "src/py_gql/lang/printer.py",
                        "a %s whose `%s` is present (%s) can be printed as `%s`, without it: the tree read back lacks that part"
                        % (c, slot, ", ".join("%s=%s" % kv for kv in sorted(st.items())), " ".join(text) or "<nothing>"))
+
+
+
+def check_indent(prog, run, rule_id="I1"):
+    # ---- I1 indentation of multi-line text
+    r = run.rule(rule_id, "_indent folded on sample texts (one line, several lines, an interior line of blanks, an empty interior line, "
+                       "U+2028 / U+0085 inside a line) x indents (two spaces, a tab): its body is a pure str expression (str methods, "
+                       "% / +, textwrap) and must prefix every \\n-separated line - a line of blanks included, or the parser's "
+                       "common-indentation removal eats its content - and insert nothing anywhere else; the empty text stays empty", 12)
+    ind = prog.get_func(PRINTER, "_indent")
+    run.looked_at(ind)
+    shapes.require(len(ind.params) == 2, "C03.I1: _indent no longer takes (text, indent)")
+    import textwrap as _textwrap
+    from .. import fold
+    allowed = {"str": str, "len": len, "bool": bool, "textwrap": _textwrap, "True": True, "False": False, "None": None,
+               "map": map, "list": list, "tuple": tuple}
+    for text in ("a", "a\nb", "a\n    \nb", "a\n\nb", "a\u2028b\nc", "a\x85b\nc", ""):
+        for indent in ("  ", "\t"):
+            try:
+                outs = fold.fold_function(ind.node, {ind.params[0]: text, ind.params[1]: indent}, allowed)
+            except fold.FoldError as e:
+                raise AnalysisError("C03.I1: _indent cannot be folded on %r: %s" % (text, e))
+            r.instance("_indent(%r, %r) -> %s" % (text, indent, [v for _k, v in outs]))
+            for kind, got in outs:
+                ok = kind == "return" and isinstance(got, str)
+                if ok and text == "":
+                    ok = got == ""
+                elif ok:
+                    lines, src = got.split("\n"), text.split("\n")
+                    ok = len(lines) == len(src) and all(g == indent + s_ or (s_ == "" and g == "") for g, s_ in zip(lines, src))
+                if not ok:
+                    run.report(r, "%s:_indent:every-line(%r)" % (PRINTER, text), ind.where(),
+                               "_indent(%r, %r) gives %r: not every line is prefixed (or something else is inserted), so a block string "
+                               "printed inside an indented position does not read back as the same text" % (text, indent, got))
+                    break
